@@ -183,21 +183,25 @@ class ScenarioRunner:
         shutil.copytree(self.template, self.rundir)
         self._root = os.path.abspath(self.rundir)
         self._env()
-        import multiprocessing as _mp
-        real_manager = _mp.Manager
-        if scn.mode == "mp":
-            # the scheduler replaces the manager-backed lists by plain lists right after construction;
-            # starting four manager server processes per schedule would only cost time
-            _mp.Manager = _LocalManager
+        holder = {}
+        fhs = load_repo()["fhs"]
+        # every blocking primitive the store creates during construction is scheduler-owned (no dependence on
+        # attribute names); the name-based replacement below is only a fall-back for a store that creates none
+        owner = S.owned_primitives(fhs, lambda: holder.get("s"))
         try:
-            store = open_store(self.rundir, **scn.cfg)
+            with owner:
+                store = open_store(self.rundir, **scn.cfg)
         finally:
-            _mp.Manager = real_manager
             os.environ["USE_MULTIPROCESSING"] = "False"
         if scn.mode == "mp" and not getattr(store, "use_multiprocessing", False):
             raise Inconclusive("store built with USE_MULTIPROCESSING=True did not enter multiprocessing mode")
-        holder = {}
-        conds = S.instrument_store(store, lambda: holder.get("s"), scn.mode)
+        conds = S.adopt_store(store, owner)
+        self._generic_lists = bool(conds)
+        if not conds:
+            try:
+                conds = S.instrument_store(store, lambda: holder.get("s"), scn.mode)
+            except AttributeError as err:
+                raise Inconclusive(f"cannot take over the store's synchronisation primitives: {err}")
         env = World(self.scratch, self.contents, self.docs, pids=scn.pids, fmts=scn.fmts,
                     store_dir="run", store=store, datadir=self.datadir, **scn.cfg)
         env._paths = dict(self._paths)
@@ -255,7 +259,10 @@ class ScenarioRunner:
         ob.harness_errors = [repr(w.error) for w in sch.workers if w.error is not None]
         ob.outcomes = [w.result if isinstance(w.result, Outcome) else None for w in sch.workers]
         ob.okeys = tuple(outcome_key(scn.calls[i], o) if o is not None else ("none",) for i, o in zip(idxs, ob.outcomes))
-        ob.locked = {k: v for k, v in S.locked_lists(store, scn.mode).items() if v}
+        lists = S.locked_lists_generic(store) if self._generic_lists else S.locked_lists(store, scn.mode)
+        if not lists:
+            lists = S.locked_lists(store, scn.mode)
+        ob.locked = {k: v for k, v in lists.items() if v}
         ob.mutex_owned = sorted({c.mutex.name for c in conds.values() if c.mutex.owner is not None})
         ob.cond_stats = {k: dict(c.stats) for k, c in conds.items()}
         ob.observer_findings = getattr(observer, "findings", []) if observer else []
